@@ -118,6 +118,18 @@ theorem c09_once (f : Int → Outcome) (sched : List Step) :
     have := i.onceD t ht hq
     simp [this.1, this.2]
 
+/-- **one execution of `_push_task`** (the regenerated translation, every behaviour of `convert_snapshot` and of
+    `stub.send`): at most one send attempt; exactly one iff the snapshot converted — none when it did not convert or
+    the conversion raised; what leaves the task is the conversion's exception, or the send's, and nothing otherwise. -/
+theorem c09_push_task_outcomes (conv : ConvOut) (send : Option Py.Exn) :
+    (pushTask conv send).1 ≤ 1 ∧
+    ((pushTask conv send).1 = 1 ↔ conv = .converted) ∧
+    (pushTask conv send).2 = (match conv with
+      | .raises e => some e
+      | .isNone => none
+      | .converted => send) := by
+  cases conv <;> cases send <;> simp [pushTask]
+
 /-- tripwire: one run = one send for a snapshot that converts and is delivered or fails in `send`; none otherwise -/
 theorem c09_sends_per_outcome :
     Outcome.ok.sends = 1 ∧ (∀ e, (Outcome.sendFails e).sends = 1) ∧ Outcome.unconvertible.sends = 0 ∧
@@ -209,6 +221,38 @@ theorem c09_executor_rejection (f : Int → Outcome) (s : St) :
     | true => rw [submitRejected_open _ ho]; rfl
   · show s.th.jobId ≤ (if s.th.isOpen then s.th.jobId + 1 else s.th.jobId)
     split <;> omega
+
+/-- tripwire: the in-tree submitters — every `submit_task` call site of src/deep, enumerated from the source at
+    extraction time: the configuration service's listener update and the push service.  (A new submitter breaks this
+    theorem, so it cannot appear without the after-close stream of the check being extended to it.) -/
+theorem c09_submit_sites :
+    submitSites.map (fun s => (s.file, s.func)) =
+      [("deep/config/tracepoint_config.py", "TracepointConfigService.__trigger_update"),
+       ("deep/push/push_service.py", "PushService.push_snapshot")] := by decide
+
+/-- **refused visibly, through every submitter** — whatever state the closed handler is in, at every in-tree
+    submitter the refusal is never dropped silently: the `IllegalStateException` of `submit_task` reaches the
+    submitter's caller, or the site that swallows it emits a log record at WARNING or above; the handler accepts
+    nothing (`c09_refuse`).  (As the source is now no site swallows; a site that swallows AND logs keeps the
+    theorem, one that swallows silently breaks it.)  Joins C12's shutdown window (`c12_update_after_flush_kills_timer`): a late UPDATE is
+    refused loudly in the poll thread. -/
+theorem c09_refused_visibly_everywhere (th : TH) (h : th.isOpen = false) :
+    ∀ site ∈ submitSites, ∃ r, siteOutcome site th = some r ∧ r ≠ .silent := by
+  have e : submitTask th = .error .base := by
+    simp [submitTask, submitAccept, h, fact_refuses, refusalClass]
+  intro site hs
+  have hv : ∀ s ∈ submitSites, s.swallowsRefusal = false ∨ s.handlerLogs = true := by decide
+  rcases hv site hs with h1 | h1
+  · exact ⟨.raised .base, by simp [siteOutcome, e, h1], by simp⟩
+  · cases h2 : site.swallowsRefusal with
+    | false => exact ⟨.raised .base, by simp [siteOutcome, e, h2], by simp⟩
+    | true => exact ⟨.logged, by simp [siteOutcome, e, h1, h2], by simp⟩
+
+/-- … and while the handler is open every submitter's work is accepted -/
+theorem c09_accepted_while_open (th : TH) (h : th.isOpen = true) :
+    ∀ site ∈ submitSites, siteOutcome site th = none := by
+  intro site _
+  simp [siteOutcome, submitTask, submitAccept, h, fact_accepts]
 
 /-- flush closes the handler before it looks at the pending map, and a closed handler stays closed -/
 theorem c09_closed_stays (f : Int → Outcome) (sched : List Step) (s : St) (h : s.th.isOpen = false) :
